@@ -193,7 +193,42 @@ func runOrigin(c J, emit func(J)) {
 					st2 = "residues differ"
 				}
 				ev["slow"] = st2
+				// two records in one stream, all scanned before any is decoded (ORIGIN blocks decode lazily):
+				// the first record must still hold its own residues afterwards
+				if n <= 400 {
+					p2 := patternResidues(maxInt(n-5, 0), "acgt")
+					for i := range p2 {
+						p2[i] = p2[i] - 32 // upper case: different from the first record
+					}
+					gb2 := seqio.GenBank{Fields: baseFields("OR2", gts.Linear), Table: gts.FeatureSlice{{Key: "source", Loc: gts.Range(0, maxInt(len(p2), 1)), Props: gts.Props{{"organism", "x"}}}}, Origin: seqio.NewOrigin(append([]byte(nil), p2...))}
+					text2, perr2 := writeGenBank(gb2)
+					if perr2 == nil {
+						for _, crlf := range []bool{false, true} {
+							both := text + text2
+							if crlf {
+								both = strings.ReplaceAll(both, "\n", "\r\n")
+							}
+							seqs, errs, pp := scanAll(both)
+							okk := pp == nil && errs == "" && len(seqs) == 2
+							if okk {
+								b1 := seqs[1].Bytes()
+								b0 := seqs[0].Bytes()
+								okk = bytes.Equal(b0, p) && bytes.Equal(b1, p2)
+							}
+							if crlf {
+								ev["pair_slow"] = okk
+							} else {
+								ev["pair_fast"] = okk
+							}
+						}
+					}
+				}
 			}()
+			for _, k := range []string{"pair_fast", "pair_slow"} {
+				if _, ok := ev[k]; !ok {
+					ev[k] = true
+				}
+			}
 			if ev["panic"] != "" {
 				for _, k := range []string{"blocklen", "nlines", "lennodecode", "lenafter", "scanlen"} {
 					ev[k] = -1
@@ -296,8 +331,29 @@ func runFasta(c J, emit func(J)) {
 						ev["rerr"] = err.Error()
 					}
 					ev["read"] = read
+					// the same text handed to the scanner in two reads, cut at every offset (short streams only)
+					if len(text) <= 700 {
+						want, _ := json.Marshal(read)
+						for cut := 1; cut < len(text); cut++ {
+							sc2 := seqio.NewAutoScanner(newSplitReader(text, cut))
+							got := []interface{}{}
+							for sc2.Scan() {
+								v := sc2.Value()
+								d, _ := v.Info().(string)
+								got = append(got, J{"desc": d, "res": bytesToInts(v.Bytes())})
+							}
+							g, _ := json.Marshal(got)
+							if !bytes.Equal(g, want) || (sc2.Err() == nil) != (sc.Err() == nil) {
+								ev["splitdiff"] = cut
+								break
+							}
+						}
+					}
 				}()
 			}()
+			if _, ok := ev["splitdiff"]; !ok {
+				ev["splitdiff"] = -1
+			}
 			for len(asListAny(ev["linelens"])) < len(written) {
 				ev["linelens"] = append(asListAny(ev["linelens"]), []int{-1})
 			}
@@ -308,6 +364,9 @@ func runFasta(c J, emit func(J)) {
 		if n >= 2 {
 			p := patternResidues(n, "acgt")
 			gb := seqio.GenBank{Fields: baseFields("GBF", gts.Linear), Table: gts.FeatureSlice{{Key: "source", Loc: gts.Range(0, n), Props: gts.Props{{"organism", "x"}}}}, Origin: seqio.NewOrigin(append([]byte(nil), p...))}
+			// a DEFINITION of 1..4 lines (the reader keeps the line breaks; FASTA wants one line)
+			deflines := []string{"verif record GBF", "second line of the definition", "third line, complete genome", "fourth"}[:1+n%4]
+			gb.Fields.Definition = strings.Join(deflines, "\n")
 			// whole record, an inner slice, empty slices, the full-length slice, one-residue slices
 			for _, w := range [][]int{nil, {n / 3, n - n/4}, {n / 3, n / 3}, {0, 0}, {n, n}, {0, n}, {n - 1, n}, {0, 1}} {
 				var seq gts.Sequence = gb
@@ -322,7 +381,7 @@ func runFasta(c J, emit func(J)) {
 					want = p[a:b]
 					region = []int{a, b}
 				}
-				ev := J{"ev": "gbfasta", "case": id, "version": gb.Fields.Version, "definition": gb.Fields.Definition,
+				ev := J{"ev": "gbfasta", "case": id, "version": gb.Fields.Version, "definition": strings.Join(deflines, " "), "deflines": len(deflines),
 					"region": region, "gbres": bytesToInts(want), "panic": "", "desc": "", "res": []int{}}
 				func() {
 					defer func() {
